@@ -87,11 +87,13 @@ def report_makefilename(ctx, failures):
 DEFAULT = {"m1": "check", "m2": "check", "lo": False, "po": False}
 
 
-def items_from_export(recs, same_every=3):
+def items_from_export(recs):
+    """Every exported history comes with reuse = FALSE (pipeline objects built anew for every run) and, for
+    the plain chain, with reuse = TRUE (the same objects run again and again)."""
     items = []
-    for i, r in enumerate(recs):
+    for r in recs:
         steps = [x["touched"] for x in r["h"]]
-        items.append((r["sc"], r["set"], steps, i % same_every == 0))
+        items.append((r["sc"], r["set"], steps, bool(r["reuse"])))
     return items
 
 
@@ -119,7 +121,8 @@ def random_history(rnd):
                 and (st["m1"] != "existing_unchanged" or (p, "csv", m) in deleted)]
         tpl = rnd.random() < 0.25 and (st["m2"] != "existing_unchanged" or all((p, "tex", 0) in deleted for p in plots))
         steps.append({"del": dels, "data": data, "tpl": tpl})
-    return (sc, st, steps, rnd.random() < 0.3)
+    # half of the plain histories run the same pipeline objects again and again
+    return (sc, st, steps, not sc["grouped"] and rnd.random() < 0.5)
 
 
 def binding_demo(ctx):
@@ -173,6 +176,10 @@ def run(ctx):
         pinned = ctx.mc("Output", cfg, expect_violation="report")
         notes.append("%s (CreatedSetsChanged=FALSE): TLC refutes %s" % (cfg, pinned.violated or "nothing"))
     ctx.extra["model_of_pinned_design"] = notes
+    # a reused RenderLaTeX that keeps the template it loaded first, in the same model
+    stale = ctx.mc("Output", "Output_noreload.cfg", expect_violation="report")
+    ctx.extra["model_without_template_reload"] = "AutoReload=FALSE, reused objects: TLC refutes %s" % (
+        stale.violated or "nothing")
     ctx.mc("MakeFilename", "MakeFilename_%s.cfg" % tag, coverage=True, must_cover=("Step",))
     if ctx.thorough:
         ctx.mc("MakeFilename", "MakeFilename_thorough2.cfg")
